@@ -57,14 +57,14 @@ def main(chk):
     # 3. invocation sequences over a shared cache
     depth = 5 if chk.quick else 6
     groups = [[name(c) for c in g] for g in (["lscalar", "llist", "lcol", "ltab"], ["lmulti", "lwhere", "lcrit", "lscalar"])]
-    n_extra = 2 if chk.quick else 8
+    n_extra = 2 if chk.quick else 6
     while len(groups) < 2 + n_extra:
         g = sorted(rng.sample(LAM, 3 if chk.quick else 4))
         if [name(c) for c in g] not in groups:
             groups.append([name(c) for c in g])
     plans = [(g, 3, ["none"], ["cached"], depth) for g in groups]
     if not chk.quick:
-        plans += [(g, 4, ["none"], ["cached"], depth) for g in groups[:3]]
+        plans += [(g[:3], 4, ["none"], ["cached"], depth) for g in groups[:2]]
     selftest = c02.faulty_selftest(chk, groups[0], 3, ["none"], cap, lam_none_bind=False)
     G, graphs, runs, walks, extra, plan, steps, mism = c02.graph_phase(chk, plans, cap, vals, table, rng, 200 if chk.quick else 2000, depth,
                                                                       lam_none_bind=dev)
